@@ -318,14 +318,14 @@ Proof.
       wbind (pop_reference s0) (fun r s1 => WOk (mkTag mk mt (TagRef r) (ref_start r) (ref_end r)) s1)
     | STRING =>
       wbind (pop_value_top s0) (fun v s1 => WOk (mkTag mk mt (TagVal v) (value_start v) (value_end v)) s1)
-    | _ => wbind (pop_token s0) (fun t s1 => WErr t (Expected [IDENT; BOOL; STRING]) s1)
+    | _ => wbind (pop_token s0) (fun t s1 => WErr t (Expected exp_tag) s1)
     end = WOk t s' -> tlx t).
   { intros mk mt s0 Hok0 Hl0 Ht0 Hm.
     assert (Hr : next_type s0 = IDENT \/ next_type s0 = BOOL ->
               wbind (pop_reference s0) (fun r s1 => WOk (mkTag mk mt (TagRef r) (ref_start r) (ref_end r)) s1) = WOk t s' -> tlx t).
     { intros Hn. destruct (pop_reference s0) as [r s1|t1 wet1 s1|p|] eqn:Er; try discriminate. cbn [wbind]. intros [= <- _].
       split; [exact Hm|]. cbn. eapply pop_reference_lx; eauto. }
-    assert (Hd : wbind (pop_token s0) (fun t s1 => WErr (A:=tag) t (Expected [IDENT; BOOL; STRING]) s1) = WOk t s' -> tlx t).
+    assert (Hd : wbind (pop_token s0) (fun t s1 => WErr (A:=tag) t (Expected exp_tag) s1) = WOk t s' -> tlx t).
     { destruct (pop_token s0); discriminate. }
     destruct (next_type s0) eqn:En; auto.
     unfold pop_value_top. cbn [pop_value]. rewrite En. cbn.
@@ -343,7 +343,7 @@ Proof.
         wbind (pop_reference s1) (fun r s2 => WOk (mkTag mk (Some t0) (TagRef r) (ref_start r) (ref_end r)) s2)
       | STRING =>
         wbind (pop_value_top s1) (fun v s2 => WOk (mkTag mk (Some t0) (TagVal v) (value_start v) (value_end v)) s2)
-      | _ => wbind (pop_token s1) (fun t s2 => WErr t (Expected [IDENT; BOOL; STRING]) s2)
+      | _ => wbind (pop_token s1) (fun t s2 => WErr t (Expected exp_tag) s2)
       end) = WOk t s' -> tlx t).
   { intros mk c Hop Hne Hni Hmk. rewrite E. cbn [wbind].
     apply Hafter; [apply Hst|eapply wstep_live; eauto|eapply wstep_tinv; eauto|].
